@@ -708,6 +708,11 @@ func c16Race(c *core.Ctx, replayLine *pbLine) {
 		if !configs[1].Versioning {
 			configs = append(configs, pbConfig{"otmp", true, false})
 		}
+		// always: a key with parent directories inside the bucket (what DeleteBucket finds
+		// of an upload in progress is then a directory tree, not only a temporary file)
+		if !configs[1].Nested {
+			configs = append(configs, pbConfig{"otmp", false, true})
+		}
 	}
 	// which design does the code implement? Two directed schedules tell (the verdicts never
 	// depend on this: it selects the model whose predictions the forced schedules are
